@@ -155,7 +155,7 @@ class C06(Prop):
                   "(else eslEDUP and no index file; the cross-class case is cross_duplicate()'s merge pass over the two sorted streams, modelled line by line), and the external path emits the same bytes as the in-memory path; "
                   "the automatic switch fires exactly when current_newssi_size() >= max_ram before an Add call and is permanent; on the written bytes Open succeeds, FindName returns exactly the stored record for every primary key and "
                   "every alias, eslENOTFOUND for every other string, FindNumber enumerates the keys in strcmp order (eslENOTFOUND outside 0..n-1), FileInfo returns name/format/line geometry for every handle, FindSubseq computes the documented outcome for keys and aliases. "
-                  "On ANY byte string (truncated, corrupted, unsorted index) Open/FindName/FindNumber/FindSubseq/FileInfo answer with a documented status and never read outside a buffer; an eslOK from FindName carries a stored record holding exactly the probe key. "
+                  "On ANY byte string (truncated, corrupted, unsorted index) Open/FindName/FindNumber/FindSubseq/FileInfo answer with a documented status and never read outside a buffer; an eslOK from FindName carries a stored record holding exactly the probe key; a written index cut after any number of bytes never answers with a wrong record. A second Write on the same ESL_NEWSSI is eslEINVAL and touches nothing. "
                   "The model is tied to the working tree on every run by an exact differential run (index bytes and every lookup, damaged indices included) against the ASan/UBSan build, plus an independent oracle on the library's outputs.")
     level_note = ("Alias lookup assumes AddAlias's documented precondition (the target is a registered primary key); on arbitrary bytes the alias recursion of FindName is shown to end when no stored alias names another stored alias "
                   "(true of every written index, proved). Former known finding C06:cross-class-duplicate is repaired (cross_duplicate() in esl_newssi_Write); its witness is a regression case and `cross_class_duplicate_rejected` a theorem. "
